@@ -54,6 +54,15 @@ pub const GOLDEN: &[&str] = &[
     "{\"a\":[1,2.5,true,null,\"s\\n\"],\"b\":{}}",
     "\u{feff}# bom\n- é: 中\n  😀: x\n",
     "- !!str a\n- !local b\n- !<tag:x> c\n- ! d\n",
+    // document boundaries: what must not leak from one document into the next
+    "&a x\n...\n*a\n",
+    "--- &a x\n--- *a\n",
+    "- &a 1\n- *a\n---\n- &b 2\n- *b\n",
+    "%TAG !e! tag:e.example,2000:\n--- !e!a x\n...\n!e!b y\n",
+    "%TAG !! tag:x.example,2000:\n--- !!a x\n...\n!!str y\n",
+    "a: &x 1\n...\nb: *x\n",
+    "[ ? a : b, : d ]\n",
+    "k: {a: [b, {c: d}], ? e : f}\n...\n[g: h]\n",
 ];
 
 // ------------------------------------------------------------------------------------------------
